@@ -242,9 +242,10 @@ package tchannel
 // ===========================================================================
 // outbound.go -- the ttl of an outgoing call is the caller's remaining time;
 // calls with less than a millisecond left fail locally.
-// (ttl == deadline - now cannot be stated: the result of ctx.Deadline(), an
-// interface method of package context, cannot be named in a spec. What is
-// checked: no call req is handed to the sender with a ttl under 1 ms.)
+// What is checked: no call req is handed to the sender with a ttl under 1 ms,
+// and none with a ttl above the time the caller's context had left when the
+// call began (dl(ctx): the context's deadline; nanos(now): the clock reading
+// beginCall took first).
 // ===========================================================================
 
 // (the exchange set's onAdded hook: see verif_contracts.go -- it leaves
@@ -505,4 +506,10 @@ package tchannel
 //@ func (c *Connection) connectionError(site string, err error) (out error)
 //@   label inbound-calls-are-stopped-whenever-outbound-ones-are
 //@   ensures nstopped(old(c.inbound)) - old(nstopped(c.inbound)) == nstopped(old(c.outbound)) - old(nstopped(c.outbound))
+//@   property C14
+
+// "The time-to-live sent with a call never exceeds the caller's remaining time."
+//@ func (c *Connection) beginCall(ctx context.Context, serviceName, methodName string, callOptions *CallOptions) (call *OutboundCall, err error)
+//@   label sent-ttl-not-above-the-callers-remaining-time
+//@   atcall writeMethod hasdl(ctx) && call.callReq.TimeToLive <= dl(ctx) - nanos(now)
 //@   property C14
